@@ -712,9 +712,11 @@ class AttackGraph():
                     attacker.name)
 
 
-        attacker.id = attacker_id if attacker_id is not None \
+        # The id is only written to the attacker once nothing can be refused
+        # any more, a refused attacker keeps the id it carries.
+        new_id = attacker_id if attacker_id is not None \
             else self.next_attacker_id
-        if attacker.id in self._id_to_attacker:
+        if new_id in self._id_to_attacker:
             raise ValueError(f'Attacker index {attacker_id} already in use.')
 
         # Refuse unknown nodes before anything is changed, otherwise the nodes
@@ -727,6 +729,7 @@ class AttackGraph():
                 logger.error(msg, node_id)
                 raise AttackGraphException(msg % node_id)
 
+        attacker.id = new_id
         self.next_attacker_id = max(attacker.id + 1, self.next_attacker_id)
         for node_id in reached_attack_steps:
             node = self.get_node_by_id(node_id)
